@@ -28,6 +28,10 @@ func run(e *Env) error {
 	} else if done {
 		return nil
 	}
+	// the Go zero value of every type under every preset (never touched by a decoder), against the Spec's default value
+	if err := s.ZeroCases(e, e.N(6000, 40000)); err != nil {
+		return err
+	}
 	if err := s.CodecCases(e, e.N(700, 3000), e.N(2, 6), 0, false); err != nil {
 		return err
 	}
